@@ -498,6 +498,20 @@ example (sh : St ℚ Unit) (hh : finalHead Pq dirNoop () prq (stopAt none) false
   converged_iff_eps_le_tol Pq dirNoop () prq (stopAt none) (stopAt_mono none) 1 9 fuelOK_prq false
     [1] [] [] [] [] 0 0 sh hh
 
+/-- `converged_iff_eps_le_tol_all` (early return included) and `eps_from_final_iterate` on that run,
+    every hypothesis discharged -/
+example : (run Pq dirNoop () prq (stopAt none) false [1] [] [] [] [] 0 1000000).stats.status = .Converged ↔
+    (run Pq dirNoop () prq (stopAt none) false [1] [] [] [] [] 0 1000000).stats.eps ≤ effTol prq.tolerance :=
+  converged_iff_eps_le_tol_all Pq dirNoop () prq (stopAt none) (stopAt_mono none) 1 9 fuelOK_prq false
+    [1] [] [] [] [] 0 1000000 (by norm_num [effTol, prq])
+
+example (sh : St ℚ Unit) (hh : finalHead Pq dirNoop () prq (stopAt none) false [1] [] 0 0 = some sh) :
+    ∃ cb, (rq none).callbacks.getLast? = some cb ∧ cb.it = sh.curr ∧ cb.eps = (rq none).stats.eps := by
+  obtain ⟨c, cb, _, _, _, _, h5, h6, h7, _⟩ :=
+    eps_from_final_iterate Pq dirNoop () prq (stopAt none) (stopAt_mono none) 1 9 fuelOK_prq false
+      [1] [] [] [] [] 0 0 sh hh
+  exact ⟨cb, h5, h6, h7⟩
+
 /-- its "iterate unchanged" flags: both iterations moved -/
 example : runFlags Pq dirNoop () prq (stopAt none) false [1] [] 0 0 = [false, false] := by
   decide +kernel
